@@ -278,7 +278,7 @@ let jmodule m =
     "\"params\":" ^ jlist (List.map jkv m.vm_params); "\"attrs\":" ^ jlist (List.map jattr m.vm_attrs);
     "\"header\":" ^ jlist (List.map jhentry m.vm_header); "\"body\":" ^ jlist (List.map jitem m.vm_body) ] ^ "}"
 let wunsup_str = function
-  | WMultiAssign -> "multi-bit-assign" | WAssignShape -> "assign-shape" | WUnnamedPort -> "unnamed-port"
+  | WAssignShape -> "assign-shape" | WUnnamedPort -> "unnamed-port"
   | WName -> "name" | WValue -> "not-a-netlist-value"
 
 let handle_emit rest =
